@@ -204,12 +204,16 @@ class NPModel:
     def minimum(a, b):
         if not _is_sym_array(a) and not _is_sym_array(b) and not isinstance(a, S) and not isinstance(b, S):
             return _np.minimum(a, b)
+        if Ctx.cur.opts.get("minmax_ite"):
+            return _elementwise(lambda u, v: Ctx.cur.extremum([u, v], "min"), a, b)
         return _elementwise(lambda u, v: u if u <= v else v, a, b)
 
     @staticmethod
     def maximum(a, b):
         if not _is_sym_array(a) and not _is_sym_array(b) and not isinstance(a, S) and not isinstance(b, S):
             return _np.maximum(a, b)
+        if Ctx.cur.opts.get("minmax_ite"):
+            return _elementwise(lambda u, v: Ctx.cur.extremum([u, v], "max"), a, b)
         return _elementwise(lambda u, v: u if u >= v else v, a, b)
 
     @staticmethod
@@ -226,10 +230,18 @@ class NPModel:
         return _elementwise(c, x, lo, hi)
 
     @staticmethod
-    def _reduce(a, axis, better):
+    def _reduce(a, axis, better, kind=None):
         a = _np.asarray(a, dtype=object) if not isinstance(a, _np.ndarray) else a
         if a.dtype != object:
             raise AssertionError
+        if kind and Ctx.cur.opts.get("minmax_ite"):
+            if axis is None:
+                return Ctx.cur.extremum(list(a.ravel()), kind)
+            moved = _np.moveaxis(a, axis, 0)
+            out = _np.empty(moved.shape[1:], dtype=object)
+            for idx in _np.ndindex(*moved.shape[1:]):
+                out[idx] = Ctx.cur.extremum([moved[(k,) + idx] for k in range(moved.shape[0])], kind)
+            return out
         if axis is None:
             it = list(a.ravel())
             best = it[0]
@@ -252,13 +264,13 @@ class NPModel:
     def min(a, axis=None):
         if isinstance(a, _np.ndarray) and a.dtype != object:
             return _np.min(a, axis=axis)
-        return NPModel._reduce(a, axis, lambda v, b: v < b)
+        return NPModel._reduce(a, axis, lambda v, b: v < b, "min")
 
     @staticmethod
     def max(a, axis=None):
         if isinstance(a, _np.ndarray) and a.dtype != object:
             return _np.max(a, axis=axis)
-        return NPModel._reduce(a, axis, lambda v, b: v > b)
+        return NPModel._reduce(a, axis, lambda v, b: v > b, "max")
 
     amin = min
     amax = max
